@@ -8,7 +8,7 @@ from vlib import gen, oracle
 
 ID = "C10"
 RULE = ("case = (1-2 frames, 1-60 atoms (sometimes up to 400), placement uniform inside / spread over +-1,3,8 cells / inside with 40% moved out by lattice vectors / pairs at 0.3..1.2 cutoffs "
-        "split over images / on cell faces and "
+        "split over images / flat sheets and lines (zero extent along one or two axes) / on cell faces and "
         "voxel boundaries / clustered, cell of every C05 kind or none, cutoff from 0.02 nm to half the smallest cell width, query and "
         "haystack subsets incl. overlapping, unsorted and empty); oracle = float64 exact minimum-image distance matrix; compute_neighbors: "
         "exact set modulo pairs within 1e-5 of the cutoff, haystack order, no duplicates; compute_neighborlist: exact per-atom sets, "
@@ -39,10 +39,10 @@ def _open_keys():
 @st.composite
 def strategy(draw, tier="quick"):
     nf = draw(st.integers(1, 2))
-    cells = draw(gen.cells(nf, lmin=1.0, lmax=12.0, kinds=["cubic", "ortho", "ortho", "ortho", "mono", "hex", "troct", "rhdo", "tric", "tric"]))
+    cells = draw(gen.cells(nf, lmin=1.0, lmax=12.0, kinds=["cubic", "ortho", "ortho", "ortho", "mono", "hex", "troct", "rhdo", "tric", "tric", "near-ortho"]))
     big = draw(st.integers(0, 14)) == 0
     n = draw(st.integers(80, 150)) if big else draw(st.integers(1, 60))
-    cp = draw(gen.coord_params(n_atoms=n, classes=["inside", "inside", "spread", "spread", "faces", "clustered", "mixed", "mixed", "paired-inside", "paired-inside"]))
+    cp = draw(gen.coord_params(n_atoms=n, classes=["inside", "inside", "spread", "spread", "faces", "clustered", "mixed", "mixed", "paired-inside", "paired-inside", "flat"]))
     cp["offset"] = draw(st.sampled_from([0.0, 0.0, 0.0, 30.0]))
     q = sorted(set(draw(st.lists(st.integers(0, n - 1), min_size=1, max_size=min(n, 6)))))
     hs_mode = draw(st.sampled_from(["all", "all", "subset", "shuffled", "empty"]))
